@@ -263,7 +263,9 @@ func (r TypeClassInstance) IsFunc() bool {
 }
 
 func (r TypeClassInstance) IsGivenAny() bool {
-	return r.Implicit && r.TypeParam.Size() == 1 && r.TypeParam[0].IsAny()
+	// Given[T any]() Tc[T]: the instance is for the type parameter itself. A constructor that
+	// merely takes no instance arguments (monoid.MergeSeq[T any]() Monoid[fp.Seq[T]]) is not a Given.
+	return r.Implicit && r.TypeParam.Size() == 1 && r.TypeParam[0].IsAny() && r.Under.IsTypeParam()
 }
 
 type TypeClassInstancesOfPackage struct {
